@@ -85,6 +85,10 @@ DENSE = {
                                                'Smtb.C02Dense.deletion_too_large_none', 'Smtb.C02Dense.deletion_all_padding',
                                                'Smtb.C02Dense.deletion_dense_nat']),
 }
+TS = {
+    'ins': ['proofRound_trace_iff', 'verifyProof_trace_iff', 'insertionRound_trace_iff', 'insertionProof_trace_iff', 'insertionCircuit_trace_iff_bn254'],
+    'del': ['proofRound_trace_iff', 'verifyProof_trace_iff', 'deletionRound_trace_iff', 'deletionProof_trace_iff', 'deletionCircuit_trace_iff_bn254'],
+}
 FULL = {
     'ins': ['Smtb.Properties.C03.insertionCircuit_sat_iff', 'Smtb.Properties.C03.insertion_start_index_overflow_unsat'],
     'del': ['Smtb.Properties.C03.deletionCircuit_sat_iff', 'Smtb.Properties.C03.deletion_index_overflow_unsat'],
@@ -105,15 +109,18 @@ def corr_runs(ctx, mode, n, nfull, seeds):
 def run(ctx, mode):
     prop = ctx.prop
     common.go_build(['trace', 'corrmerkle'])
-    common.lake_build([f'Smtb.Properties.{prop}', f'Smtb.Properties.{prop}Dense', 'Smtb.Properties.C03', 'driver'])
+    common.lake_build([f'Smtb.Properties.{prop}', f'Smtb.Properties.{prop}Dense', 'Smtb.Properties.C03', 'Smtb.Properties.TraceSound', 'driver'])
     common.audit(ctx, f'Smtb/Properties/{prop}.lean', THEOREMS[mode])
     # tree-level meaning (under collision-freedom of the hash as an explicit hypothesis) and the
     # full-circuit form over BN254 (stated in C03.lean, which composes C04/C05/C06 with this property)
     common.audit(ctx, DENSE[mode][0], DENSE[mode][1])
     common.audit(ctx, 'Smtb/Properties/C03.lean', FULL[mode])
+    # kernel-checked link from the recorded trace (the text compared with the Go recorder) to the
+    # Sat semantics: no parametricity step for these gadgets
+    common.audit(ctx, 'Smtb/Properties/TraceSound.lean', [f'Smtb.Properties.TraceSound.{t}' for t in TS[mode]])
     ctx.assumptions += [
         "gnark v0.8.0 compiles each frontend.API call to constraints whose satisfiability is the Sat gate table (Smtb/Proofs/Sat.lean); validated by the R1CS runs of T-corr, not proved",
-        "parametricity: the trace interpretation and the Sat interpretation are runs of the same polymorphic Lean program",
+        "the link between the recorded trace and the Sat semantics is PROVED for these gadgets and for the full circuits with Poseidon2/Keccak opaque (Smtb/Properties/TraceSound.lean: Sat run ⇔ first-order semantics of the trace the driver prints); parametricity is still assumed for the bodies of Poseidon and Keccak (C05, C04)",
         "Poseidon2 is kept opaque in these traces; its equality with the reference hash is C05",
     ]
     ctx.trusted += ["gnark v0.8.0 frontend/R1CS builder and solver, gnark test engine (modelled by the Sat gate table)"]
